@@ -352,6 +352,14 @@ add_using(CPPUsing *using_decl, CPPScope *global_scope,
     CPPDeclaration *decl = using_decl->_ident->find_symbol(this, global_scope);
     if (decl != nullptr) {
       handle_declaration(decl, global_scope, error_sink);
+
+      // handle_declaration() files a class or enumeration of another scope
+      // under its qualified name.  The point of a using-declaration is that
+      // the unqualified name denotes the type in this scope.
+      CPPExtensionType *et = decl->as_extension_type();
+      if (et != nullptr) {
+        _types.insert(Types::value_type(et->get_simple_name(), et));
+      }
     } else {
       if (error_sink != nullptr) {
         error_sink->warning("Attempt to use unknown symbol: " + using_decl->_ident->get_fully_scoped_name(), using_decl->_ident->_loc);
